@@ -655,14 +655,20 @@ class _InternalBaseTracer(_InternalBaseTracerSuper, metaclass=MetaTracerStateMac
 
         return instrumented_f
 
-    def __call__(self, code: Union[str, ast.Module, ast.stmt, Callable]):
+    def __call__(
+        self,
+        code: Union[str, ast.Module, ast.stmt, Callable],
+        num_extra_lookback_frames: int = 0,
+    ):
         if isinstance(code, (str, ast.AST)):
-            return self.exec(code, num_extra_lookback_frames=1)
+            return self.exec(
+                code, num_extra_lookback_frames=num_extra_lookback_frames + 1
+            )
         else:
             return self.instrumented(code)
 
     def __getitem__(self, code: Union[str, ast.Module, ast.stmt, Callable]):
-        return self(code)
+        return self(code, num_extra_lookback_frames=1)
 
     def enter_tracing_hook(self) -> None:
         pass
@@ -1002,7 +1008,11 @@ class _InternalBaseTracer(_InternalBaseTracerSuper, metaclass=MetaTracerStateMac
             return self.exec(thunk, instrument=False, num_extra_lookback_frames=1)
 
     def execute(self, *args, **kwargs):
-        return self.exec(*args, **kwargs)
+        return self.exec(
+            *args,
+            num_extra_lookback_frames=kwargs.pop("num_extra_lookback_frames", 0) + 1,
+            **kwargs,
+        )
 
     def _should_attempt_to_reenable_tracing(self, frame: FrameType) -> bool:
         return NotImplemented
